@@ -278,8 +278,17 @@ func runC20(c *Ctx, r *Report, tier string) {
 					return strings.Join(s, ",")
 				}
 				okRes = true
+				// the candidate measured in the loop
+				measured := map[string]bool{"idx(P1, phi{(phi↺ + 1) | 0})": true}
+				for lb := range cl.Blocks {
+					for _, in := range lb.Instrs {
+						if call, ok := in.(*ssa.Call); ok && c.calleeName(&call.Call) == "levenshtein" && len(call.Call.Args) == 2 {
+							measured[c.term(call.Call.Args[1])] = true
+						}
+					}
+				}
 				for i, e := range sp.Edges {
-					if cl.Blocks[sp.Block().Preds[i]] && c.resolve(e) != ssa.Value(sp) && c.term(e) != "idx(P1, phi{(phi↺ + 1) | 0})" {
+					if cl.Blocks[sp.Block().Preds[i]] && c.resolve(e) != ssa.Value(sp) && !measured[c.term(e)] {
 						okRes = false
 					}
 				}
@@ -287,6 +296,16 @@ func runC20(c *Ctx, r *Report, tier string) {
 				for _, in := range cl.Header.Instrs {
 					if dp, ok := in.(*ssa.Phi); ok && relType(c, dp.Type()) == "int" && dp != sp && strings.Contains(c.term(dp), "call:levenshtein(") && upd(dp) == upd(sp) && upd(sp) != "" {
 						same = true
+						// seeded from the first candidate: the candidate remembered initially is the one whose distance seeds the minimum
+						for i, e := range dp.Edges {
+							if !cl.Blocks[dp.Block().Preds[i]] {
+								if call, ok := c.resolve(e).(*ssa.Call); ok && c.calleeName(&call.Call) == "levenshtein" && len(call.Call.Args) == 2 {
+									if c.term(sp.Edges[i]) != c.term(call.Call.Args[1]) {
+										same = false
+									}
+								}
+							}
+						}
 					}
 				}
 				okRes = okRes && same
